@@ -3,3 +3,5 @@ pub mod proj;
 pub mod util;
 pub mod c19;
 pub mod c20;
+pub mod mrec;
+pub mod c03;
